@@ -8,11 +8,11 @@ package internal
 // Oracle: an independent reference model written from the property text.
 
 import (
-	"github.com/cenkalti/backoff/v5"
 	"context"
 	"encoding/json"
 	"errors"
 	"fmt"
+	"github.com/cenkalti/backoff/v5"
 	"strings"
 	"testing"
 	"time"
@@ -76,6 +76,9 @@ var c05Outcomes = []string{"ok", "transient", "permanent", "wrapped-permanent", 
 // an attempt normally takes no virtual time; the "slow-transient" one takes this long before it fails (a backend that hangs
 // until some per-attempt timeout): the elapsed-time budget and the deadline count from the moment the request was taken
 const c05Slow = 2 * time.Second
+
+// shutdown during an attempt: in the quick tier only in the configurations without randomisation
+var c05ShutEverywhere bool
 var c05Wakes = []string{"timer", "shutdown", "cancel"}
 
 type c05Cfg struct {
@@ -103,17 +106,18 @@ type c05Attempt struct {
 }
 
 type c05Res struct {
-	attempts []c05Attempt
-	outs     []string
-	wakes    []string
-	delays   []time.Duration // armed back-off delay observed at each wait
-	class    string
-	errText  string
-	lateSend bool // a backend call after Send returned
+	attempts  []c05Attempt
+	outs      []string
+	wakes     []string
+	delays    []time.Duration // armed back-off delay observed at each wait
+	class     string
+	errText   string
+	lateSend  bool   // a backend call after Send returned
+	shutAt    int    // index of the attempt DURING which the exporter was shut down (-1: not during an attempt)
 	shut      bool   // the exporter was shut down during the first request
 	attempts2 int    // attempts of the second request (sent after shutdown, always failing transiently)
 	class2    string // how its Send ended
-	returned bool
+	returned  bool
 }
 
 // every permanent backend error wraps this sentinel, so that the harness recognises "permanent" by itself (errors.Is walks
@@ -143,7 +147,8 @@ func c05Body(cfg c05Cfg, maxAttempts int, res *c05Res) func() {
 			}
 			return c05Draws[vs.ChooseFree(len(c05Draws))]
 		}
-		*res = c05Res{}
+		*res = c05Res{shutAt: -1}
+		var be *BaseExporter
 		t0 := vs.Now()
 		pusher := func(_ context.Context, r request.Request) error {
 			if vs.Killed() {
@@ -171,6 +176,13 @@ func c05Body(cfg c05Cfg, maxAttempts int, res *c05Res) func() {
 				o = outs[vs.ChooseFree(len(outs))]
 			}
 			res.outs = append(res.outs, o)
+			// "with shutdown arriving at any point": also while an attempt is under way - whatever that attempt then answers
+			// is its verdict (a success is a success, a permanent error is final), only a retryable failure ends shutdown-classified
+			if !res.shut && (cfg.RF == 0 || c05ShutEverywhere) && vs.ChooseFree(2) == 1 {
+				_ = be.Shutdown(context.Background())
+				res.shut = true
+				res.shutAt = len(res.attempts) - 1
+			}
 			switch o {
 			case "transient":
 				return errors.New("transient")
@@ -216,7 +228,8 @@ func c05Body(cfg c05Cfg, maxAttempts int, res *c05Res) func() {
 			}
 			return nil
 		}
-		be, err := NewBaseExporter(exportertest.NewNopSettings(component.MustNewType("x")), pipeline.SignalTraces, pusher,
+		var err error
+		be, err = NewBaseExporter(exportertest.NewNopSettings(component.MustNewType("x")), pipeline.SignalTraces, pusher,
 			WithRetry(cfg.backoff()), WithTimeout(TimeoutConfig{Timeout: cfg.AttemptTimeout}))
 		if err != nil {
 			panic(err)
@@ -234,6 +247,10 @@ func c05Body(cfg c05Cfg, maxAttempts int, res *c05Res) func() {
 				vs.Block(func() bool { return vs.PendingTimer() || finished })
 				if finished {
 					return
+				}
+				if res.shut { // shut down during an attempt: every later wait simply runs out
+					vs.FireNext()
+					continue
 				}
 				dl, _ := vs.NextDeadline()
 				res.delays = append(res.delays, dl.Sub(vs.Now()))
@@ -354,6 +371,17 @@ func c05Ref(cfg c05Cfg, res *c05Res) string {
 			limit = cfg.Deadline
 		}
 		waited := wi < len(res.wakes)
+		if res.shutAt >= 0 && i >= res.shutAt {
+			// the exporter was shut down while this attempt was under way: no retry; shutdown-classified (unless the next
+			// attempt would not have fitted anyway, which the implementation may notice first)
+			if limit >= 0 && t+lo > limit {
+				return finish("other")
+			}
+			if limit >= 0 && t+hi > limit {
+				return finish("?")
+			}
+			return finish("shutdown")
+		}
 		if limit >= 0 {
 			switch {
 			case t+lo > limit:
@@ -425,6 +453,7 @@ func TestVerif(t *testing.T) {
 	defer ctx.Finish()
 	if ctx.Param("draws", 2) == 3 {
 		c05Draws = []float64{0, 0.5, 0.999999}
+		c05ShutEverywhere = true
 	}
 	if ctx.ReplayRaw != nil {
 		var rf struct {
